@@ -26,6 +26,7 @@ EXPLANATION = (
     "prev_position / positions; (13) FOCUS-FWD and OPTCALL restricted to listbox.py (the focus flag reaches the focus item; optional child methods are called "
     "under hasattr); (14) BOUND: the walker clamps its focus index to len - 1 under `index >= len` (a focus left one past the end makes the ListBox render blank although items remain); (15) SENTINEL: walker results are compared with None by identity (an empty container item is falsy but is a widget); (16) GUARD: a paging candidate reaches change_focus() with its own offset only where the tests on the way entail row_offset + rows > 0 - linear atoms, per reaching definition of the offset (fix 15a2acb: page down tried items scrolled off the top and raised ListBoxError); (17) FLAG-FWD: a ListBox method that was given the focus flag lays the box out with it (mouse_event located the item under the pointer in the focused layout of an unfocused box)."
     ' Round 8: (18) INV: every walker set_focus() calls _modified() on every path; (19) ORDER: an item is appended to the visible list only after its position was stored in the variable a later loop resumes from.'
+    ' Round-8 triage: (18) extended: a walker that inherits the focus setter routes its _focus_changed() hook to _modified() (fix 38d0291).'
 )
 NOT_DECIDED = (
     "That the window is gap-free and contains the focus for every history (arithmetic over offset_rows / inset_fraction / item heights), snapping and paging "
